@@ -216,6 +216,8 @@ def check(an: Analysis) -> None:
                     return object() if present else None
                 if isinstance(e, ast.Name) and deps3.origins(e) == {"call:asyncio.current_task"}:
                     return object() if present else None
+                if present and isinstance(e, ast.Call) and isinstance(e.func, ast.Attribute) and e.func.attr in ("done", "cancelled") and not e.args and deps3.origins(e.func.value) == {"call:asyncio.current_task"}:
+                    return False  # the task that is running this very code is neither done nor cancelled
                 return NOVALUE
 
             return env
